@@ -178,7 +178,7 @@ def segmentations(rng, n, bounds):
     return out
 
 
-def make_case(rng, role, msgs, bits="-", pre=0, ho=b"", nseg=None, enc=0, segs_override=None):
+def make_case(rng, role, msgs, bits="-", pre=0, ho=b"", nseg=None, enc=0, segs_override=None, eof=0):
     stream = b"".join(m.raw for m in msgs)
     bounds, p = [], 0
     for m in msgs:
@@ -215,8 +215,8 @@ def make_case(rng, role, msgs, bits="-", pre=0, ho=b"", nseg=None, enc=0, segs_o
         segs = segs_override(len(stream))
     if role == "meta":
         enc = 0     # MSE towards a metadata download is not driven (the negotiation is C06's subject)
-    return "role=%s np=%d bits=%s pre=%d cu=1 xv=%s ho=%s enc=%d stream=%s segs=%s" % (
-        role, 1 if role == "meta" else NP, bits, pre, xv, ho.hex() or "-", enc, stream.hex() or "-", "/".join(segs))
+    return "role=%s np=%d bits=%s pre=%d cu=1 xv=%s ho=%s enc=%d eof=%d stream=%s segs=%s" % (
+        role, 1 if role == "meta" else NP, bits, pre, xv, ho.hex() or "-", enc, eof, stream.hex() or "-", "/".join(segs))
 
 
 def two_cuts(step):
@@ -249,6 +249,18 @@ def hand_cases(rng, tier="quick"):
         ms = [M(msg(20, b"\x00d1:md11:ut_metadatai2ee1:pi6881ee"), "ext-hs", True), M(msg(4, be32(2)), "have"),
               M(msg(20, b"\x01" + bytes(range(90))), "ext-garbage", True), M(msg(2), "int")]
         out.append(make_case(rng, role, ms, enc=1, segs_override=two_cuts(1)))
+    # remote close in the middle of every kind of message / payload, every role
+    for role in ROLES:
+        whole = [M(msg(2), "int"), M(msg(4, be32(0)), "have"), M(msg(6, be32(0) + be32(0) + be32(1000)), "req"),
+                 M(msg(20, b"\x00d1:md11:ut_metadatai2eee"), "ext-hs", True)]
+        if role == "leech":
+            whole.append(M(msg(7, be32(1) + be32(0) + bytes(300)), "piece-unrequested"))
+        if role == "meta":
+            whole.append(M(msg(5, bytes(40)), "bitfield"))
+        whole.append(M(msg(9, b"\x1a\xe1"), "port"))
+        raw = b"".join(m.raw for m in whole)
+        for cut in sorted(set([0, 1, 4, 5, 6, 9, 13, 14, 20, 31, 40, 41, 60, len(raw) - 1, len(raw)] + [rng.randrange(len(raw)) for _ in range(4)])):
+            out.append(make_case(rng, role, [M(raw[:cut], "truncated")], eof=1, nseg=3, enc=1 if cut % 2 else 0))
     # REQUESTs whose begin+length wraps around 2^32 (and plain out-of-range ones) on upload-capable roles, unchoked, and
     # the writer is released afterwards (D2): must close that connection only
     for role in ("seed", "leechdone", "iseed", "leech"):
@@ -338,7 +350,9 @@ def gen(seed, tier):
         bits = "-" if rng.random() < 0.7 else "".join(rng.choice("01") for _ in range(NP - 1)) + "0"
         pre = 1 if rng.random() < 0.5 else 0
         enc = 1 if (k % 3 == 1) else 0
-        cases.append(make_case(rng, role, msgs, bits=bits, pre=pre, enc=enc))
+        eof = 1 if (k % 7 == 3) else 0      # remote close after the last byte (with `truncate`: at any byte)
+        cases.append(make_case(rng, role, msgs, bits=bits, pre=pre, enc=enc, eof=eof))
+        stats["remote_close"] = stats.get("remote_close", 0) + eof
         stats["grammar"] += 1
         stats["encrypted"] = stats.get("encrypted", 0) + (1 if enc and role != "meta" else 0)
         stats["by_role"][role] = stats["by_role"].get(role, 0) + 1
